@@ -1,0 +1,20 @@
+//go:build verif
+
+package types
+
+import (
+	"math/big"
+
+	"github.com/ethereum/go-ethereum/common"
+)
+
+// Verification hooks (build tag `verif` only): re-export the unexported seal functions so that the
+// correspondence harness in /verif can seal generated headers and tabulate the real signer recovery.
+
+// VerifSealHash is sealHash: the hash signed by the sealer (the header without the 65-byte seal, with the chain id).
+func VerifSealHash(header Header, chainID *big.Int) common.Hash { return sealHash(header, chainID) }
+
+// VerifEcrecover is ecrecover: the account that sealed the header.
+func VerifEcrecover(header Header, chainID *big.Int) (common.Address, error) {
+	return ecrecover(header, chainID)
+}
